@@ -273,7 +273,7 @@ class DocGen:
         if delim == "none":
             return ir.StrEnc(charset, self.length_spec(cx, 8 * unit, 0 if r.random() < 0.2 else 1))
         if delim == "term":
-            ch = r.choice(["\x00", "\x00", ";", "X", "\n"])
+            ch = r.choice(["\x00", "\x00", ";", "X", "\n"] + (["\u00a7", "\u20ac", "\U0001F600"] if charset.startswith("UTF") else []))
             term = ch.encode(ref.PY_CODEC[charset]).hex()
             return ir.StrEnc(charset, self.length_spec(cx, 8 * unit, 1), termination=term)
         ls = r.choice([8, 16, 8, 5, 12])
